@@ -31,7 +31,7 @@ Example C18_examples :
   sprint (SBin EXP (SVar "a") (SBin EXP (SVar "b") (SVar "c"))) = Ok "a^(b^c)" /\
   sprint (SBin EXP (SBin EXP (SVar "a") (SVar "b")) (SVar "c")) = Ok "a^b^c" /\
   sprint (SBin MUL (SVar "a") (SBin DIV (SVar "b") (SVar "c"))) = Ok "a*(b/c)" /\
-  sprint (SBin ADD (SVar "a") (SBin SUB (SLit 1) (SLit 3))) = Ok "a+-2".      (* K4 *)
+  sprint (SBin ADD (SVar "a") (SBin SUB (SLit 1) (SLit 3))) = Ok "a+(-2)".    (* K4 *)
 Proof. repeat split; reflexivity. Qed.
 Example C18_hypotheses_satisfiable :
   sym_ok (SBin DIV (SGroup (SBin SUB (SVar "a") (SBin EXP (SVar "b") (SGroup (SBin SUB (SLit 4) (SVar "z"))))))
